@@ -292,19 +292,23 @@ class Interp:
             if isinstance(n.right, ast.Constant) and _isint(b):
                 self.shifts.add(abs(b))
             return self.binop(n.op, a, b)
-        if isinstance(n, ast.ListComp):
-            if len(n.generators) != 1:
-                raise Unsupported('nested comprehension')
-            g = n.generators[0]
-            it = self.ev(g.iter, env)
-            if not isinstance(it, (list, tuple)):
-                raise Unsupported(f'comprehension over {it!r}')
+        if isinstance(n, (ast.ListComp, ast.GeneratorExp)):
             out = []
-            sub = dict(env)
-            for x in it:
-                self.assign(g.target, x, sub)
-                if all(self.truth(self.ev(c, sub)) for c in g.ifs):
+
+            def gen(k, sub):
+                if k == len(n.generators):
                     out.append(self.ev(n.elt, sub))
+                    return
+                g = n.generators[k]
+                it = self.ev(g.iter, sub)
+                if not isinstance(it, (list, tuple)):
+                    raise Unsupported(f'comprehension over {it!r}')
+                for x in it:
+                    sub2 = dict(sub)
+                    self.assign(g.target, x, sub2)
+                    if all(self.truth(self.ev(c, sub2)) for c in g.ifs):
+                        gen(k + 1, sub2)
+            gen(0, dict(env))
             return out
         if isinstance(n, ast.Call):
             return self.call(n, env)
